@@ -174,9 +174,15 @@ func newRun(cfg Config, rng *rand.Rand, pause time.Duration, record bool) (*run,
 	// the outer one (seed-chosen), as a configuration may.
 	labels := rng.Perm(n)
 	var outer []string
+	// a third of the runs each: plain names; names that are ambiguous when two of them are joined
+	// with ':' ("x"+":"+"y:z" = "x:y"+":"+"z"); names that are ambiguous when simply concatenated
+	tricky := [][]string{nil, {"x", "x:y", "y:z", "z"}, {"a", "ab", "b", "bb"}}[rng.Intn(3)]
 	for i := 1; i <= n; i++ {
 		if !isInner[i] {
 			r.names[i] = fmt.Sprintf("st%c%d", 'a'+rune(labels[i-1]%26), labels[i-1])
+			if labels[i-1] < len(tricky) {
+				r.names[i] = tricky[labels[i-1]]
+			}
 			outer = append(outer, r.names[i])
 		}
 	}
